@@ -6,6 +6,8 @@ import GocoinV.Proofs.C19Crash
 namespace GocoinV.Proofs.C19
 open GocoinV GocoinV.Qdb GocoinV.QdbSpec
 
+variable {eg : Bool}
+
 /-- `a` is `b` plus emitted effects that all satisfy `P` -/
 def Emits (P : Effect → Prop) (a b : DB) : Prop := ∃ es, a.effs = b.effs ++ es ∧ ∀ e ∈ es, P e.2
 
@@ -166,7 +168,7 @@ theorem defrag_effs_shape (db : DB) (h : Cached db)
   obtain ⟨hs1, hs2, hs3, hs4, hs5, hs8, hs9⟩ := defragStart_disk db
   have hf0 : (defragStart db).failed = none := hs5.trans h.1
   obtain ⟨d', w', hfold, _, _, hrest⟩ :=
-    defragFold_layout (u32 (db.dataSeq + 1)) db.index h.2 (defragStart db) {} [] hf0
+    defragFold_layout (u32 (db.dataSeq + 1)) db.index h.2 (defragStart db) {} [] hf0 (defragStart_frame db).eager
   have hEm1 := emits_defragStart db
   have hEm2 := emits_defragFold (u32 (db.dataSeq + 1)) db.index (defragStart db, {}, [])
   rw [hfold] at hEm2
@@ -432,10 +434,10 @@ theorem ilookup_layout_val (S b : Nat) (l : List (Key × Rec)) (k : Key) :
 
 /-- any directory that holds the complete new snapshot, its data file, and at most remnants of the old
     snapshot / old log, reopens to the new content -/
-theorem post_content {F0 G : FS} {S i v : Nat} (idx : List (Key × Rec)) (hwf : IndexWF idx) (hS : S < 2^32)
+theorem post_content {F0 G : FS} {S i v : Nat} (idx : List (Key × Rec)) (hwf : IndexWF eg idx) (hS : S < 2^32)
     (h : PostState F0 G S i (snapBytes (u32 (v + 1)) (layout S 4 idx)) (le32 S ++ (valsOf idx).flatten))
     (ho : OldParts F0 i v) (hv : v < 2^32) :
-    DirReadable G ∧ ∀ k, diskValue G k = (ilookup k idx).map valOf := by
+    DirReadable eg G ∧ ∀ k, diskValue G k = (ilookup k idx).map valOf := by
   have hV : u32 (v + 1) < 2^32 := u32_lt _
   have hfits := layout_fits S hS idx hwf.wf 4 hwf.small
   obtain ⟨⟨j, hpick⟩, hlog⟩ := post_pick h ho hv (checkIdxFile_snapBytes _ _ hV)
@@ -500,8 +502,8 @@ theorem removal_keeps (S i : Nat) (l : List Effect) (hl : ∀ e ∈ l, IsRemoval
     exact ⟨a.trans hstep.1, b.trans hstep.2⟩
 
 theorem same_disk_readable (F0 F : FS) (hp : pickIdx F = pickIdx F0) (hl : logEntries F = logEntries F0)
-    (hd : ∀ kr ∈ diskIndex F0, dlookup kr.2.seq F.dats = dlookup kr.2.seq F0.dats) (h0 : DirReadable F0) :
-    DirReadable F ∧ ∀ k, diskValue F k = diskValue F0 k := by
+    (hd : ∀ kr ∈ diskIndex F0, dlookup kr.2.seq F.dats = dlookup kr.2.seq F0.dats) (h0 : DirReadable eg F0) :
+    DirReadable eg F ∧ ∀ k, diskValue F k = diskValue F0 k := by
   have hD : diskIndex F = diskIndex F0 := by unfold diskIndex snapBase; rw [hl, hp]
   constructor
   · intro kr hkr
@@ -521,7 +523,7 @@ theorem same_disk_readable (F0 F : FS) (hp : pickIdx F = pickIdx F0) (hl : logEn
 /-- a directory holding the complete new snapshot is openable: what is left of the old log is discarded by
     `loadlog` (its header carries the previous version) -/
 theorem post_openOK {F0 G : FS} {S i v : Nat} {X fS : Bytes} (h : PostState F0 G S i X fS) (ho : OldParts F0 i v)
-    (hv : v < 2^32) (hX : checkIdxFile (some X) = some (u32 (v + 1), X)) (hR : DirReadable G) : OpenOK G := by
+    (hv : v < 2^32) (hX : checkIdxFile (some X) = some (u32 (v + 1), X)) (hR : DirReadable eg G) : OpenOK eg G := by
   obtain ⟨⟨j, hp⟩, _⟩ := post_pick h ho hv hX
   have hsv : snapVer G = u32 (v + 1) := by unfold snapVer; rw [hp]
   refine ⟨?_, by rw [hsv]; exact u32_lt _, hR⟩
@@ -544,11 +546,11 @@ theorem post_openOK {F0 G : FS} {S i v : Nat} {X fS : Bytes} (h : PostState F0 G
 /-- what the directory must look like before defrag starts -/
 structure DefragReady (db : DB) : Prop where
   cached : Cached db
-  wf : IndexWF db.index
+  wf : IndexWF eg db.index
   free : checkIdxFile (idxFile db.fs (1 - db.datIdx)) = none
   old : OldParts db.fs (1 - db.datIdx) db.verSeq
   verlt : db.verSeq < 2^32
-  readable : DirReadable db.fs
+  readable : DirReadable eg db.fs
   seqs : ∀ kr ∈ diskIndex db.fs, kr.2.seq ≠ u32 (db.dataSeq + 1)
   logfits : ∃ E, (∀ e ∈ E, EntryFits e) ∧ LogState db.fs db.verSeq E
   ver : snapVer db.fs = db.verSeq
@@ -559,7 +561,7 @@ structure DefragReady (db : DB) : Prop where
     in-memory value. -/
 theorem defrag_prefix (db : DB) (hr : DefragReady db) :
     ∃ es, (defrag db).effs = db.effs ++ es ∧
-      ∀ n, OpenOK (db.fs.applyAll ((es.map (·.2)).take n)) ∧
+      ∀ n, OpenOK eg (db.fs.applyAll ((es.map (·.2)).take n)) ∧
         ((∀ k, diskValue (db.fs.applyAll ((es.map (·.2)).take n)) k = diskValue db.fs k) ∨
          (∀ k, diskValue (db.fs.applyAll ((es.map (·.2)).take n)) k = (ilookup k db.index).map valOf)) := by
   obtain ⟨A, B, hsh, hA, hB⟩ := defrag_effs_shape db hr.cached hr.small
@@ -633,7 +635,7 @@ theorem defrag_prefix (db : DB) (hr : DefragReady db) :
       rw [hm, List.take_succ_cons]
       simp
     rw [ht, applyAll_append]
-    show OpenOK (Gc.applyAll (B'.take (n - A'.length - 1))) ∧ _
+    show OpenOK eg (Gc.applyAll (B'.take (n - A'.length - 1))) ∧ _
     have hpost := hpostc.applyAll (B'.take (n - A'.length - 1)) (fun e he => hB' e (List.mem_of_mem_take he))
     have := post_content db.index hr.wf (u32_lt _) hpost hr.old hr.verlt
     exact ⟨post_openOK hpost hr.old hr.verlt (checkIdxFile_snapBytes _ _ (u32_lt _)) this.1, Or.inr this.2⟩
